@@ -60,7 +60,9 @@ type Cfg struct {
 	// SlowOn: the controller's filter takes one (virtual) second to decide about objects of this name with a version
 	// above 1 (a slow user predicate): the controller is legitimately busy while watch frames keep arriving
 	SlowOn       string
-	StartRV      int // the server's versions start above this (-1: the first object gets resourceVersion 0)
+	CancelOnList int  // the builder's context is cancelled as the n-th list call returns its (good) answer
+	CountAccepts bool // the controller filter counts the objects it is asked about (Obs.AcceptsAtReady)
+	StartRV      int  // the server's versions start above this (-1: the first object gets resourceVersion 0)
 	Period       time.Duration
 	Pre          []Mut
 	Hist         []Mut
@@ -105,6 +107,7 @@ type Obs struct {
 	ReadyList           string // Cache().List() read by an observer the moment Ready() closed
 	ReadyLists          int    // completed List calls at that moment
 	ReadySeen           bool
+	AcceptsAtReady      int // CountAccepts: objects the cache had asked the controller filter about when Ready() closed
 	CloseReturned       int
 	ClosesIssued        int
 	DoneAfterClose      bool
@@ -133,6 +136,7 @@ type Inst struct {
 	O            Obs
 	cancel       context.CancelFunc
 	serverAtRead []metav1.Object
+	accepts      int
 }
 
 func (in *Inst) apply(m Mut) {
@@ -201,6 +205,13 @@ func (in *Inst) Run() {
 	}
 	ctx, cancel := context.WithCancel(logutil.NewContext(context.Background(), hx.Log))
 	in.cancel = cancel
+	if c.CancelOnList > 0 {
+		in.Srv.OnListReturn = func(n int) {
+			if n == c.CancelOnList {
+				cancel()
+			}
+		}
+	}
 	b := kcache.NewBuilder().Context(ctx).Log(hx.Log).Filter(in.controllerFilter()).Client(in.Srv)
 	b.Lister().RefreshPeriod(c.Period)
 	ctrl, err := b.Create()
@@ -226,6 +237,7 @@ func (in *Inst) Run() {
 	// observer of readiness: reads the cache the moment Ready() closes
 	go func() {
 		<-ctrl.Ready()
+		in.O.AcceptsAtReady = in.accepts
 		l, err := ctrl.Cache().List()
 		in.O.ReadySeen = true
 		if err != nil {
@@ -421,6 +433,13 @@ func (in *Inst) postAPI() {
 
 func (in *Inst) controllerFilter() filter.Filter {
 	f := hx.MkFilter(in.C.Filter)
+	if in.C.CountAccepts {
+		// evidence that a list or event reached the cache: the cache asks the filter about every object it is given
+		return filter.FN(func(o metav1.Object) bool {
+			in.accepts++
+			return f.Accept(o)
+		})
+	}
 	if in.C.SlowOn == "" {
 		return f
 	}
